@@ -107,6 +107,12 @@ def random_cfg(rnd, ntypes):
         keys = set(rules)
         rules = {k: (m, [c for c in cts if c not in keys]) for k, (m, cts) in rules.items()}
         rules = {k: v for k, v in rules.items() if v[1]}
+    elif len(rules) >= 2 and rnd.random() < 0.6:
+        # layered map: a rule lists the MAPPED type of another rule (a type that exists only after renaming); outside the
+        # documented rule's side condition, exercised for the model correspondence (in-place renaming in stream order)
+        ks = sorted(rules)
+        a, b = rnd.sample(ks, 2)
+        rules[a] = (rules[a][0], sorted(set(rules[a][1]) | {rules[b][0]}))
     return gmap, rules
 
 
@@ -336,6 +342,19 @@ def gen_cases(out, explore):
         rnd.shuffle(order)
         cases.append(dict(tree=t, order=order, scale=rnd.choice([1, 1000, 10**9 + 7]), gmap=gm, rules=rs,
                           exhaustive=False, **{"async": rnd.random() < 0.5}))
+    # layered rename chains: span types 1 > 2 > 3 nested, rule 2 -> 12 when a child of type 3 is present, rule 1 -> 11 when a
+    # child of the MAPPED type 12 is present; children-first, parents-first and shuffled stream orders (model correspondence:
+    # the renaming is done in place, in stream order)
+    for k in range(12 if out.tier == "quick" else 120):
+        g3 = dict(id=3, ty=3, st=2, en=3, pl=1, kids=[])
+        g2 = dict(id=2, ty=2, st=1, en=4, pl=1, kids=[g3])
+        extra = dict(id=4, ty=rnd.choice([2, 3, 4]), st=5, en=6, pl=1, kids=[])
+        t = dict(id=1, ty=1, st=0, en=8, pl=1, kids=[g2, extra])
+        order = [[3, 2, 4, 1], [1, 2, 3, 4], [2, 3, 1, 4], [4, 3, 2, 1]][k % 4]
+        rs = {2: (12, [3]), 1: (11, [12] + ([4] if k % 3 == 0 else []))}
+        if k % 5 == 4:
+            rs[4] = (14, [12])
+        cases.append(dict(tree=t, order=order, scale=1000, gmap={}, rules=rs, exhaustive=False, **{"async": k % 2 == 1}))
     return cases, n_exh, n_rand
 
 
